@@ -132,7 +132,7 @@ def cbd_dominated(P, lab, met, kept, d, keep_greater):
         if not ok.all():
             q = int(np.nonzero(~ok)[0][0])
             near = np.nonzero(D[q] <= d)[0]
-            return {"group": float(g), "removed_row": int(r[q]), "metric": float(met[r[q]]), "keep_greater": bool(keep_greater),
+            return {"group": float(g), "removed_row": int(r[q]), "removed_metric": float(met[r[q]]), "keep_greater": bool(keep_greater),
                     "kept_within_d": [{"row": int(k[j]), "dist": float(D[q, j]), "metric": float(met[k[j]])} for j in near[:4]],
                     "nearest_kept_dist": float(D[q].min()), "d": float(d), "n_undominated": int((~ok).sum())}
     return None
